@@ -8,6 +8,7 @@ import (
 	"net/url"
 	"os"
 	"path/filepath"
+	"strings"
 	"sync"
 	"sync/atomic"
 	"testing"
@@ -195,9 +196,18 @@ func runC17(c C17Case, ev *Evid) (fs []Finding) {
 			b, err := io.ReadAll(resp.Body)
 			return fmt.Sprintf("%d %s %s|", resp.StatusCode, resp.Header.Get("X-Op"), resp.Header.Get("Content-Type")) + string(b), err
 		}
+		// requests are stored unescaped ("path?k=v&k=v", values never contain & or =); the served subtree's
+		// name is substituted first, then every value is query-escaped
 		reqs := make([]string, len(c.Requests))
 		for i, r := range c.Requests {
-			reqs[i] = replaceSub(r, sub)
+			r = replaceSub(r, sub)
+			path, query, _ := strings.Cut(r, "?")
+			var parts []string
+			for _, kv := range strings.Split(query, "&") {
+				k, v, _ := strings.Cut(kv, "=")
+				parts = append(parts, k+"="+url.QueryEscape(v))
+			}
+			reqs[i] = path + "?" + strings.Join(parts, "&")
 		}
 		conc := make([]string, len(reqs))
 		errs := make([]error, len(reqs))
@@ -229,7 +239,18 @@ func runC17(c C17Case, ev *Evid) (fs []Finding) {
 				return
 			}
 		}
-		ev.Count(HashJSON(c), len(reqs) >= 2, "kind=http", fmt.Sprintf("requests=%d", len(reqs)))
+		bodies := 0
+		for _, r := range conc {
+			if strings.HasPrefix(r, "200 ") && len(r) > 60 {
+				bodies++
+			}
+		}
+		cls := []string{"kind=http", fmt.Sprintf("requests>=%d", len(reqs)/8*8)}
+		if bodies > 0 {
+			cls = append(cls, "http-data-responses")
+		}
+		ev.ClassN("http-responses-with-data", bodies)
+		ev.Count(HashJSON(c), len(reqs) >= 2 && bodies >= 2, cls...)
 	}
 	if ev.WantSample() && len(c.Files) <= 2 && (c.Spec == nil || len(c.Spec.Writes) < 10) {
 		ev.Sample(c)
@@ -302,12 +323,30 @@ func genC17(t *rapid.T) C17Case {
 		c := C17Case{Kind: kind, Now: now, ArchiveID: -1}
 		c.Files = genTree(t, l, now, false)
 		p := rapid.IntRange(2, 24).Draw(t, "requests")
+		if rapid.IntRange(0, 2).Draw(t, "sameSum") == 0 {
+			// the same /sum request at several clock values, in flight together, on an item with many
+			// files (a slow handler): each must get the answer for ITS clock
+			f := c.Files[0]
+			extra := rapid.IntRange(10, 30).Draw(t, "extraFiles")
+			for i := 0; i < extra; i++ {
+				c.Files = append(c.Files, TreeFile{Dir: f.Dir, Name: fmt.Sprintf("g%02d.wsp", i), Spec: f.Spec})
+			}
+			k := rapid.IntRange(3, 10).Draw(t, "sameSumRequests")
+			arch := rapid.IntRange(-1, len(l.Archives)-1).Draw(t, "arch")
+			stepBack := l.Archives[len(l.Archives)-1].Step + 1
+			for j := 0; j < k; j++ {
+				nj := now - int64(j%4)*stepBack
+				c.Requests = append(c.Requests, "/sum?item=%SUB%."+replaceSlash(f.Dir)+"&pattern=*.wsp"+
+					fmt.Sprintf("&retention=%d&from=%s&until=%s&now=%s", arch, civilString(0), civilString(now), civilString(nj)))
+			}
+			p = rapid.IntRange(0, 6).Draw(t, "otherRequests")
+		}
 		for i := 0; i < p; i++ {
 			f := c.Files[rapid.IntRange(0, len(c.Files)-1).Draw(t, "file")]
 			from, until := genCLIWindow(t, l, now)
 			until = effUntil(until, now)
 			arch := rapid.IntRange(-1, len(l.Archives)-1).Draw(t, "arch")
-			q := func(k, v string) string { return k + "=" + url.QueryEscape(v) }
+			q := func(k, v string) string { return k + "=" + v }
 			ts := func(v int64) string { return civilString(v) }
 			file := "%SUB%/" + f.Dir + "/" + f.Name
 			if rapid.IntRange(0, 9).Draw(t, "missing") == 0 {
